@@ -20,10 +20,10 @@ import (
 type pbLegacy struct{ Payload []byte }
 
 func (m *pbLegacy) Marshal() ([]byte, error) { return append([]byte(nil), m.Payload...), nil }
-func (m *pbLegacy) Unmarshal(b []byte) error  { m.Payload = append([]byte(nil), b...); return nil }
-func (m *pbLegacy) Reset()                    { m.Payload = nil }
-func (m *pbLegacy) String() string            { return fmt.Sprintf("legacy(%d)", len(m.Payload)) }
-func (m *pbLegacy) ProtoMessage()             {}
+func (m *pbLegacy) Unmarshal(b []byte) error { m.Payload = append([]byte(nil), b...); return nil }
+func (m *pbLegacy) Reset()                   { m.Payload = nil }
+func (m *pbLegacy) String() string           { return fmt.Sprintf("legacy(%d)", len(m.Payload)) }
+func (m *pbLegacy) ProtoMessage()            {}
 
 type pbLegacyVer struct {
 	pbLegacy
